@@ -316,6 +316,12 @@ ks = {"a": ceremony.ksk_def(TW[0], valid_from=t0), "b": ceremony.ksk_def(TW[1], 
 export_case(token_for(TW), ks, None, "twins", "equal-key-tags")
 export_case(token_for([TW[1]]), {"b": ceremony.ksk_def(TW[1], valid_from=t0)}, None, "twin-b", "equal-key-tags")
 export_case(token_for([TW[0]]), {"a": ceremony.ksk_def(TW[0], valid_from=t0)}, None, "twin-a", "equal-key-tags")
+# KSKs whose DS digest begins with a zero hexadecimal digit, and with a zero octet: the digest is 32 octets, 64 digits, whatever its value
+for nz_ in (1, 2):
+    for alg_ in (13, 14):
+        kz_ = ksrxml.mk_key(P.ec_ds_prefix(alg_, 257, nz_), alg=alg_, flags=257, ident=f"Kds0{nz_}a{alg_}")
+        export_case(token_for([kz_, KEYS[0]]), {"z": ceremony.ksk_def(kz_, valid_from=t0), "a": ceremony.ksk_def(KEYS[0], valid_from=t0 + dt.timedelta(days=1))}, None, f"ds0{nz_}", "digest-with-leading-zeros")
+P.save()
 # RSA public exponents of every length form of RFC 3110 (one length octet up to 255 octets, three beyond): public objects given by their raw attributes
 import PyKCS11.LowLevel as _LL
 for elen in (1, 3, 4, 254, 255, 256, 257):
